@@ -57,7 +57,7 @@ def gen_lex_walks(seed):
 def gen_lex_numbers(tier):
     """random walks through the number part of the automaton in coordinate position: long spellings (up to 30 atoms), legal or broken by
     one atom; a fixed seed in the quick tier so that the cache is reused"""
-    return vlib.cached_tlc("lex-numbers-%s" % tier, "Gen_Lex", LEX_CFG % (0, 30, "{6}"), workers=2, timeout=8 if tier == "quick" else 40,
+    return vlib.cached_tlc("lex-numbers-%s" % tier, "Gen_Lex", LEX_CFG % (0, 30, "{6,7}"), workers=2, timeout=8 if tier == "quick" else 40,
                            simulate="num=1000000", depth=31, seed=7)
 
 
